@@ -205,7 +205,9 @@ pub fn check_alg(cs: &AlgCase, only: Option<&str>, st: &mut crate::engine::Stats
         }
     }
     if want("C13") {
-        for e in &exprs {
+        // as in C13's own campaign, `Range::any()` takes no part in the print/parse round trip: it is not
+        // reachable from Range::parse and set operations, and its `*` re-parses to `>=0.0.0`
+        for e in exprs.iter().filter(|e| !e.contains_any()) {
             let c = c13::Case::Expr(e.clone());
             out.push(("C13", serde_json::to_value(&c).unwrap(), c13::check_case(&c, st)));
         }
